@@ -389,9 +389,11 @@ func GenAnteCase(seed uint64, idx int) AnteCase {
 	if allS && r.Chance(60) {
 		// governance-set parameters: 1-3 configured prices, an oracle share; offered fees around the requirement
 		pool := map[string][]string{
-			"uusdc": {"1", "0.5", "2.333333333333333333", "0.000000000000000001", "7"},
+			// incl. prices whose product with the per-message gas (10000) has a fraction of a half or more: rounding or
+			// truncating per message instead of once per transaction then shows with two messages
+			"uusdc": {"1", "0.5", "2.333333333333333333", "0.000000000000000001", "7", "0.00045", "0.666666666666666667", "1.99999"},
 			"setl":  {"0.0001", "0.000000000000000001", "0.00000000000001"},
-			"utok":  {"3", "0.25", "0.000001"},
+			"utok":  {"3", "0.25", "0.000001", "0.00015", "0.99995"},
 		}
 		denoms := []string{"setl", "utok", "uusdc"} // DecCoins are kept sorted by denomination
 		for _, d := range denoms {
